@@ -4,7 +4,7 @@ CONSTANTS
   Graphs <- Chain5
   Alpha = 2
   MaxTTL = 4
-  MaxFinds = 2
+  MaxFinds = 1
   MaxInjects = 1
   MaxExpires = 0
   MaxLosses = 0
